@@ -484,10 +484,12 @@ def pN (op : OpDef) (g k : Nat) : Nat := (pI op g k).toNat
     0 exact, 1 approximated (within one step), 2 pass-through (memory-only or monotone 1-Lipschitz) -/
 def opClass (g : Graph) (op : OpDef) : Option Nat :=
   match op.kind with
-  | "CONV_2D" | "DEPTHWISE_CONV_2D" | "FULLY_CONNECTED" | "ADD" | "SUB" | "MUL" | "QUANTIZE" | "LEAKY_RELU" | "TRANSPOSE_CONV" => some 0
+  | "CONV_2D" | "DEPTHWISE_CONV_2D" | "FULLY_CONNECTED" | "ADD" | "SUB" | "MUL" | "QUANTIZE" | "LEAKY_RELU" | "TRANSPOSE_CONV"
+  | "HARD_SWISH" => some 0
   | "MAX_POOL_2D" | "RELU" | "RELU6" | "RELU_N1_TO_1" | "MINIMUM" | "MAXIMUM" | "RESHAPE" | "SQUEEZE" | "EXPAND_DIMS"
-  | "CONCATENATION" | "SPLIT" | "STRIDED_SLICE" | "PAD" => some 2
-  | "LOGISTIC" | "TANH" | "RESIZE_BILINEAR" | "RESIZE_NEAREST_NEIGHBOR" | "MEAN" | "SOFTMAX" => some 1
+  | "CONCATENATION" | "SPLIT" | "STRIDED_SLICE" | "PAD" | "TRANSPOSE" => some 2
+  | "ARG_MAX" => some 0
+  | "LOGISTIC" | "TANH" | "RESIZE_BILINEAR" | "RESIZE_NEAREST_NEIGHBOR" | "MEAN" | "SOFTMAX" | "EXP" => some 1
   | "AVERAGE_POOL_2D" =>
     -- padding that actually occurs makes the operator one of the documented approximations
     match g.shape (inId op 0) with
@@ -635,6 +637,54 @@ def evalOp (g : Graph) (env : Env) (op : OpDef) : Except String (List Tensor) :=
       if prod os ≠ out.size then throw "mean: output shape"
       return [{ shape := os, data := out }]
     | _, _ => throw "unsupported:MEAN:quantisation"
+  | "ARG_MAX" =>
+    -- params: axis (resolved). Index of the first largest element along the axis (reference_ops::ArgMinMax with std::greater)
+    let a ← getIn env op 0
+    let axis := pN op 0 0
+    let r := a.shape.length
+    if axis ≥ r then throw "arg_max: axis"
+    let d := a.shape.getD axis 0
+    if d = 0 then throw "arg_max: empty axis"
+    let oshape := a.shape.eraseIdx axis
+    let n := prod oshape
+    let mut out : Array Int := Array.mkEmpty n
+    for i in [0:n] do
+      let co := unflatten oshape i
+      let elemAt := fun (k : Nat) => a.data.getD (flatten a.shape ((co.take axis) ++ [k] ++ (co.drop axis))) 0
+      let best := (List.range d).foldl (fun (acc : Nat × Int) k => if elemAt k > acc.2 then (k, elemAt k) else acc) (0, elemAt 0)
+      out := out.push (best.1 : Int)
+    return [{ shape := g.shape (outId op 0), data := out }]
+  | "TRANSPOSE" =>
+    -- params: permutation; output dimension i is input dimension perm[i]
+    let a ← getIn env op 0
+    let perm := (grp op 0).map Int.toNat
+    let r := a.shape.length
+    if perm.length ≠ r ∨ perm.any (· ≥ r) ∨ (List.range r).any (fun k => !perm.contains k) then throw "transpose: permutation"
+    let oshape := perm.map fun p => a.shape.getD p 0
+    let n := prod oshape
+    let mut out : Array Int := Array.mkEmpty n
+    for i in [0:n] do
+      let co := unflatten oshape i
+      -- input coordinate at dimension perm[k] = output coordinate k
+      let ci := (List.range r).map fun dIn => match perm.idxOf? dIn with | some k => co.getD k 0 | none => 0
+      out := out.push (a.data.getD (flatten a.shape ci) 0)
+    return [{ shape := oshape, data := out }]
+  | "EXP" =>
+    let a ← getIn env op 0
+    let i := inId op 0
+    let o := outId op 0
+    let dt := g.dtype o
+    if dt.bytes ≠ 1 then throw "unsupported:EXP:type"
+    match g.scales i, g.scales o with
+    | [si], [so] => return [unary a (realActivation Float.exp (f32ToFloat si) (f32ToFloat so) (g.zp i) (g.zp o) dt.lo dt.hi)]
+    | _, _ => throw "unsupported:EXP:quantisation"
+  | "HARD_SWISH" =>
+    -- params: output multiplier (int16), output exponent, reluish multiplier (int16), reluish exponent
+    let a ← getIn env op 0
+    let o := outId op 0
+    let dt := g.dtype o
+    if dt.bytes ≠ 1 then throw "unsupported:HARD_SWISH:type"
+    return [unary a (Gemmlowp.hardSwishRef dt.lo dt.hi (g.zp (inId op 0)) (g.zp o) (pI op 0 0) (pI op 0 1) (pI op 0 2) (pI op 0 3))]
   | "SOFTMAX" =>
     -- params: input multiplier, left shift, diff_min, beta (float32 bits); rows = innermost dimension
     let a ← getIn env op 0
@@ -753,6 +803,19 @@ def verifyParams (g : Graph) (op : OpDef) : Except String Unit := do
     actCheck (pI op 0 0) (pI op 0 1) (if op.kind == "RELU" then 1 else if op.kind == "RELU6" then 3 else 2)
   | "QUANTIZE" =>
     expectEq "QUANTIZE multiplier" (some (pI op 0 0, pI op 0 1)) (qmRatioDouble (← g.scale1 (inId op 0)) (← g.scale1 o))
+  | "HARD_SWISH" =>
+    -- hires_input_scale = (1/128) * input_scale; output multiplier = hires / output_scale; reluish multiplier =
+    -- hires / (3/32768): float32 arithmetic, QuantizeMultiplier, DownScaleInt32ToInt16Multiplier
+    let (mi, ei) ← match f32Decode (← g.scale1 (inId op 0)) with | some x => pure x | none => throw "unsupported:scale_outside_normal_range:hard_swish"
+    let (mo, eo) ← match f32Decode (← g.scale1 o) with | some x => pure x | none => throw "unsupported:scale_outside_normal_range:hard_swish"
+    let down := fun (m : Int) => if m ≥ 2147483647 - 32768 then (32767 : Int) else (m + 32768) / 65536
+    let q := fun (num den : Nat) (e : Int) => (roundTo 24 num den e).map fun (m, e') => quantizeMultiplierOf 24 m e'
+    match q mi mo (ei - 7 - eo), q mi 3 (ei - 7 + 15) with
+    | some (om, oe), some (rm, re) =>
+      if oe > 0 then throw "unsupported:HARD_SWISH:output_multiplier_exponent" else
+      expectEq "HARD_SWISH output multiplier" (some (pI op 0 0, pI op 0 1)) (some (down om, oe))
+      expectEq "HARD_SWISH reluish multiplier" (some (pI op 0 2, pI op 0 3)) (some (down rm, re))
+    | _, _ => throw "unsupported:scale_outside_normal_range:hard_swish"
   | "SOFTMAX" =>
     -- the 8-bit kernels require the output quantisation 1/256 with zero point = lowest value of the type
     let so ← g.scale1 o
